@@ -297,20 +297,46 @@ func runC14(c *Ctx) {
 			ok := false
 			if len(nd) == 1 {
 				// the config passed: a copy whose Limit is stored 0 under len(ChosenCases) > 0
-				EachInstr(np, func(in ssa.Instruction) {
-					if v, isSt := StoreToField(in, "Config", "Limit"); isSt {
-						if kk, isC := ConstInt(v); isC && kk == 0 {
-							for _, f := range CmpFactsAt(in) {
-								f = f.Canon()
-								if kx, isCx := ConstInt(f.X); isCx && kx == 0 && f.Op == token.LSS {
-									if lc, isCall := f.Y.(*ssa.Call); isCall && IsBuiltinCall(lc, "len") && IsFieldLoad(lc.Call.Args[0], "Config", "ChosenCases") {
-										ok = InstrDominates(in, nd[0]) || CanReach(in, nd[0])
-									}
-								}
+				// ... in NewProvider itself or in a helper of the package that prepares the decoder's config
+				for _, g := range FindFuncs(np, 2, func(*ssa.Function) bool { return true }) {
+					EachInstr(g, func(in ssa.Instruction) {
+						v, isSt := StoreToField(in, "Config", "Limit")
+						if !isSt {
+							return
+						}
+						if kk, isC := ConstInt(v); !isC || kk != 0 {
+							return
+						}
+						underFilter := false
+						for _, f := range CmpFactsAt(in) {
+							f = f.Canon()
+							isLenCC := func(x ssa.Value) bool {
+								lc, isCall := x.(*ssa.Call)
+								return isCall && IsBuiltinCall(lc, "len") && IsFieldLoad(lc.Call.Args[0], "Config", "ChosenCases")
+							}
+							kx, isCx := ConstInt(f.X)
+							ky, isCy := ConstInt(f.Y)
+							// 0 < len(cc), len(cc) != 0, 1 <= len(cc)
+							if isCx && isLenCC(f.Y) && (kx == 0 && (f.Op == token.LSS || f.Op == token.NEQ) || kx == 1 && f.Op == token.LEQ) {
+								underFilter = true
+							}
+							if isCy && ky == 0 && isLenCC(f.X) && f.Op == token.NEQ {
+								underFilter = true
 							}
 						}
-					}
-				})
+						if !underFilter {
+							return
+						}
+						// the store (or the call of the helper it is in) comes before the decoder is created
+						at := ssa.Instruction(in)
+						for d := 0; at != nil && at.Parent() != np && d < 3; d++ {
+							at = SoleCallSite(at.Parent())
+						}
+						if at != nil && at.Parent() == np && (InstrDominates(at, nd[0]) || CanReach(at, nd[0])) {
+							ok = true
+						}
+					})
+				}
 			}
 			c.Check(ok, "O14.2", fk(np)+":decoder-without-limit-under-filter", np.Pos(), "with chosencases configured the decoder must be created with Limit=0 (it counts every decoded entry, the provider counts the chosen ones)")
 		}
